@@ -190,6 +190,34 @@ class Result:
             self.rule = (self.rule + ' | ' + o.rule) if self.rule else o.rule
 
 
+def in_repo_traceback(tb_text):
+    return ('File "%s' % REPO) in tb_text
+
+
+def guarded(res, what, case, fn, *a, **k):
+    """run one harness case; an exception raised inside the code under test becomes a violation carrying the case (the run
+    goes on), any other exception is collected in res.extra['harness_errors'] and re-raised by finish_guard() only when the
+    run found no violation.  Returns (ok, value)."""
+    import traceback
+    try:
+        return True, fn(*a, **k)
+    except Exception as e:
+        tb = traceback.format_exc()
+        if in_repo_traceback(tb):
+            site = [l.strip() for l in tb.splitlines() if l.strip().startswith('File "%s' % REPO)]
+            res.violate('raises:%s:%s' % (what, type(e).__name__), 'the implementation raised %s: %s' % (type(e).__name__, str(e)[:200]),
+                        dict(case=case, raised_at=site[-1] if site else None))
+        else:
+            res.extra.setdefault('harness_errors', []).append({'what': what, 'error': tb[-1200:]})
+            res._harness_exc = e
+        return False, None
+
+
+def finish_guard(res):
+    if getattr(res, '_harness_exc', None) is not None and not res.violations:
+        raise res._harness_exc
+
+
 # ---------------------------------------------------------------- lean build / audit
 def sh(cmd, cwd=None, timeout=None, env=None):
     p = subprocess.run(cmd, cwd=cwd, capture_output=True, text=True, timeout=timeout, env=env)
